@@ -339,3 +339,7 @@ mod tests {
         assert_matrices_eq(&expected, &generated);
     }
 }
+
+#[cfg(cberner_raptorq_verif)]
+#[path = "/verif/hooks/constraint_matrix_hooks.rs"]
+pub(crate) mod verif_hooks;
